@@ -47,11 +47,26 @@ def to_view(v):
         return tuple(to_view(x) for x in v)
     if isinstance(v, list):
         return [to_view(x) for x in v]
+    if type(v).__module__.startswith("strax") and not isinstance(v, type):
+        return CObj(v)
     return v
 
 
+class CObj:
+    """Concrete object view: attribute values are wrapped like every other value."""
+
+    def __init__(self, obj):
+        self.__dict__["_obj"] = obj
+
+    def __getattr__(self, k):
+        try:
+            return to_view(getattr(self._obj, k))
+        except AttributeError:
+            raise BindingError(f"{type(self._obj).__name__}.{k}")
+
+
 def ns_of(d, view=None):
-    return Namespace(**{k: (view(k, v) if view else to_view(v)) for k, v in d.items()})
+    return Namespace({k: (view(k, v) if view else to_view(v)) for k, v in d.items()})
 
 
 class Outcome:
@@ -94,6 +109,12 @@ def check_concrete(contract, harness, inputs, native=None):
                 cond = contract.raises[c.__name__]
                 break
         if cond is None:
+            for key, cnd in contract.raises.items():
+                if ":" in key and key.split(":")[0] in [c.__name__ for c in type(ex).__mro__] \
+                        and key.split(":")[1][:3] in str(ex).lower():
+                    cond = cnd
+                    break
+        if cond is None:
             out.failed.append(f"unexpected raise {cls}")
             out.detail = f"{cls}: {ex}"
         elif not bool(cond(S, pre)):
@@ -102,6 +123,8 @@ def check_concrete(contract, harness, inputs, native=None):
         return out
     out.result = result
     post = ns_of(live)
+    if getattr(contract, "constructor", False):
+        post.__dict__["self"] = to_view(result)
     post.__dict__["old"] = pre
     post.__dict__["arg"] = post
     if contract.ensures is not None:
